@@ -6,16 +6,16 @@ CONSTANTS
   s2 = s2
   Askers = {a1, a2}
   Servers = {s1, s2}
-  K = {1, 2, 3}
-  Mode = "hub"
+  K = {1, 2}
+  Mode = "mbapp"
   Serial = FALSE
-  Classes = {"neg", "zero", "small", "exact", "over"}
+  Classes = {"small"}
   CtrVals = {1}
   MaxNow = 0
   BugNilErr = FALSE
   BugTrunc = FALSE
   BugOkOnHubErr = FALSE
-  BugReqAlias = FALSE
+  BugReqAlias = TRUE
   BugNegOk = FALSE
   KeyOT = TRUE
   KeyDst = TRUE
